@@ -358,6 +358,70 @@ Proof.
   inversion H; subst; simpl. rewrite upd_same. auto.
 Qed.
 
+(* ------------------------------------------------------------------ transactions of several messages *)
+
+Lemma deliver_tx_single blocked s o : deliver_tx blocked s [o] = deliver blocked s o.
+Proof. unfold deliver_tx, deliver. simpl. destruct (step blocked s o); reflexivity. Qed.
+
+Lemma deliver_tx_rejected blocked s tx : snd (deliver_tx blocked s tx) = false -> fst (deliver_tx blocked s tx) = s.
+Proof.
+  unfold deliver_tx. destruct tx as [|o r]; simpl; auto.
+  destruct (match step blocked s o with Some s' => run_msgs blocked s' r | None => None end); simpl; auto. discriminate.
+Qed.
+
+(** a failing message discards what the earlier messages of the same tx wrote (e.g. a hand-over) *)
+Lemma deliver_tx_atomic blocked s pre o post :
+  (forall s1, run_msgs blocked s pre = Some s1 -> step blocked s1 o = None) ->
+  deliver_tx blocked s (pre ++ o :: post)%list = (s, false).
+Proof.
+  intro H. unfold deliver_tx.
+  assert (E : run_msgs blocked s (pre ++ o :: post)%list = None).
+  { revert s H. induction pre as [|x pre IH]; intros s H; simpl.
+    - rewrite (H s eq_refl). reflexivity.
+    - destruct (step blocked s x) as [sx|] eqn:Ex; auto. apply IH. intros s1 H1. apply H. simpl. rewrite Ex. exact H1. }
+  rewrite E. destruct (pre ++ o :: post)%list; reflexivity.
+Qed.
+
+(** every message of an accepted tx was an accepted step from the state the earlier messages left:
+    all per-message theorems above apply to it *)
+Lemma accepted_tx_each_message blocked : forall tx s s',
+  run_msgs blocked s tx = Some s' ->
+  forall l1 o l2, tx = (l1 ++ o :: l2)%list ->
+  exists s1 s2, run_msgs blocked s l1 = Some s1 /\ step blocked s1 o = Some s2 /\ run_msgs blocked s2 l2 = Some s'.
+Proof.
+  induction tx as [|x r IH]; intros s s' H l1 o l2 E.
+  - destruct l1; discriminate.
+  - simpl in H. destruct (step blocked s x) as [sx|] eqn:Hx; try discriminate.
+    destruct l1 as [|y l1]; simpl in E; inversion E; subst.
+    + exists s, sx. auto.
+    + destruct (IH sx s' H l1 o l2 eq_refl) as (s1 & s2 & H1 & H2 & H3).
+      exists s1, s2. simpl. rewrite Hx. auto.
+Qed.
+
+Lemma run_msgs_inv blocked : forall tx s s', run_msgs blocked s tx = Some s' -> inv s -> inv s'.
+Proof.
+  induction tx as [|x r IH]; intros s s' H Hi; simpl in H.
+  - inversion H; subst; auto.
+  - destruct (step blocked s x) as [sx|] eqn:Hx; try discriminate.
+    eapply IH; eauto. eapply inv_step; eauto.
+Qed.
+
+(** a supply that differs after an accepted tx was moved by one of its messages, under the
+    per-message law, in the state that message ran in *)
+Lemma tx_supply_moved blocked : forall tx s s' d,
+  run_msgs blocked s tx = Some s' -> supply s' d <> supply s d ->
+  exists l1 o l2 s1 s2, tx = (l1 ++ o :: l2)%list /\ run_msgs blocked s l1 = Some s1 /\ step blocked s1 o = Some s2 /\
+    supply s2 d <> supply s1 d /\ (supply_mover s1 s2 o d \/ own_native_burn s1 s2 o d).
+Proof.
+  induction tx as [|x r IH]; intros s s' d H Hne; simpl in H.
+  - inversion H; subst. congruence.
+  - destruct (step blocked s x) as [sx|] eqn:Hx; try discriminate.
+    destruct (Z.eq_dec (supply sx d) (supply s d)) as [E|E].
+    + rewrite <- E in Hne. destruct (IH sx s' d H Hne) as (l1 & o & l2 & s1 & s2 & Ht & H1 & H2 & H3 & H4).
+      exists (x :: l1), o, l2, s1, s2. subst r. simpl. rewrite Hx. auto.
+    + exists [], x, r, s, sx. simpl. repeat split; auto. eapply supply_step; eauto.
+Qed.
+
 (* ------------------------------------------------------------------ the statement to the letter is refuted *)
 
 Definition empty_state : st :=
